@@ -1,7 +1,26 @@
 //go:build verif
 
-// Contracts for package jsonable, checked by /verif (govc). Comment-only.
+// Contracts and ghost lemma functions for package jsonable, checked by /verif (govc).
 package jsonable
+
+import (
+	"berty.tech/go-ipfs-log/identityprovider"
+	"berty.tech/go-ipfs-log/iface"
+)
+
+// Round trip of the conversion layer (C08): what ToJsonableEntry writes, ToPlain reads back field by field.
+//@ func verifLemmaEntryRoundTrip
+//@   lemma
+//@   requires validEntry(e) && e.(*entry.Entry).V >= 2 && validOut(out) && ref(out) != ref(e) && newClock != nil && !hasEncLinks(e)
+//@   requires e.(*entry.Entry).Identity == nil || e.(*entry.Entry).Identity.Signatures != nil
+//@   callspec newClock ensures validOutClock(result) && fresh(result)
+//@   ensures [round-trip-succeeds] result == nil
+//@   ensures [round-trip-preserves-every-field] out.(*entry.Entry).V == e.(*entry.Entry).V && out.(*entry.Entry).LogID == e.(*entry.Entry).LogID && bytes(out.(*entry.Entry).Key) == bytes(e.(*entry.Entry).Key) && bytes(out.(*entry.Entry).Sig) == bytes(e.(*entry.Entry).Sig) && bytes(out.(*entry.Entry).Payload) == bytes(e.(*entry.Entry).Payload) && out.(*entry.Entry).Next == e.(*entry.Entry).Next && out.(*entry.Entry).Refs == e.(*entry.Entry).Refs && out.(*entry.Entry).Clock.Time == e.(*entry.Entry).Clock.Time && bytes(out.(*entry.Entry).Clock.ID) == bytes(e.(*entry.Entry).Clock.ID)
+//@   ensures [round-trip-preserves-the-identity] (e.(*entry.Entry).Identity == nil ==> out.(*entry.Entry).Identity == nil) && (e.(*entry.Entry).Identity != nil ==> out.(*entry.Entry).Identity != nil && out.(*entry.Entry).Identity.ID == e.(*entry.Entry).Identity.ID && bytes(out.(*entry.Entry).Identity.PublicKey) == bytes(e.(*entry.Entry).Identity.PublicKey))
+func verifLemmaEntryRoundTrip(e, out iface.IPFSLogEntry, p identityprovider.Interface, newClock func() iface.IPFSLogLamportClock) error {
+	j := ToJsonableEntry(e).(*EntryV2)
+	return j.ToPlain(out, p, newClock)
+}
 
 // A decoded block is a struct whose pointer fields may be nil and whose strings are arbitrary (C12):
 // the only preconditions are on the receiver and on the output object supplied by the codec.
@@ -11,14 +30,18 @@ package jsonable
 //@ func (*LamportClock).ToPlain
 //@   requires c != nil && validOutClock(out)
 //@   modifies fields(out.(*entry.LamportClock))
-//@   ensures err == nil ==> out.(*entry.LamportClock).Time == c.Time
+//@   ensures err == nil ==> out.(*entry.LamportClock).Time == c.Time && bytes(out.(*entry.LamportClock).ID) == hexdec(c.ID)
+//@   ensures [clock-decoding-fails-only-on-bad-hex] err == nil <==> hexvalid(c.ID)
 
 //@ func (*IdentitySignature).ToPlain
 //@   requires c != nil
-//@   ensures err == nil ==> result0 != nil && fresh(result0)
+//@   ensures err == nil ==> result0 != nil && fresh(result0) && bytes(result0.ID) == hexdec(c.ID) && bytes(result0.PublicKey) == hexdec(c.PublicKey)
+//@   ensures err == nil <==> hexvalid(c.ID) && hexvalid(c.PublicKey)
 
 //@ func (*Identity).ToPlain
 //@   requires c != nil
+//@   ensures err == nil ==> result0 != nil && fresh(result0) && result0.ID == c.ID && result0.Type == c.Type && bytes(result0.PublicKey) == hexdec(c.PublicKey) && result0.Signatures != nil && bytes(result0.Signatures.ID) == hexdec(c.Signatures.ID) && bytes(result0.Signatures.PublicKey) == hexdec(c.Signatures.PublicKey)
+//@   ensures c.Signatures != nil && hexvalid(c.PublicKey) && hexvalid(c.Signatures.ID) && hexvalid(c.Signatures.PublicKey) ==> err == nil
 //@   observe c.Signatures
 //@   replay decodeentry
 //@   ensures err == nil ==> result0 != nil && fresh(result0)
@@ -30,6 +53,12 @@ package jsonable
 //@   modifies fields(out.(*entry.Entry))
 //@   callspec newClock ensures validOutClock(result) && fresh(result)
 //@   ensures [decoded-entry-has-clock] err == nil ==> out.(*entry.Entry).Clock != nil
+//@   ensures [decoded-scalars-are-the-stored-ones] err == nil ==> out.(*entry.Entry).V == c.V && out.(*entry.Entry).LogID == c.LogID && out.(*entry.Entry).Next == c.Next && out.(*entry.Entry).Refs == c.Refs
+//@   ensures [decoded-key-and-signature-are-the-stored-ones] err == nil ==> bytes(out.(*entry.Entry).Key) == hexdec(c.Key) && bytes(out.(*entry.Entry).Sig) == hexdec(c.Sig)
+//@   ensures [decoded-payload-is-the-stored-one] err == nil ==> bytes(out.(*entry.Entry).Payload) == bytes(c.Payload)
+//@   ensures [decoded-clock-is-the-stored-one] err == nil ==> out.(*entry.Entry).Clock.Time == c.Clock.Time && bytes(out.(*entry.Entry).Clock.ID) == hexdec(c.Clock.ID)
+//@   ensures [decoded-identity-is-the-stored-identity] err == nil ==> (c.Identity == nil ==> out.(*entry.Entry).Identity == nil) && (c.Identity != nil ==> out.(*entry.Entry).Identity != nil && out.(*entry.Entry).Identity.ID == c.Identity.ID && bytes(out.(*entry.Entry).Identity.PublicKey) == hexdec(c.Identity.PublicKey))
+//@   ensures [decoding-a-well-formed-entry-succeeds] c.Clock != nil && hexvalid(c.Key) && hexvalid(c.Sig) && hexvalid(c.Clock.ID) && (c.Identity == nil || (c.Identity.Signatures != nil && hexvalid(c.Identity.PublicKey) && hexvalid(c.Identity.Signatures.ID) && hexvalid(c.Identity.Signatures.PublicKey))) ==> err == nil
 
 //@ func (*EntryV0).ToPlain
 //@   requires e != nil && validOut(out) && newClock != nil
@@ -48,14 +77,19 @@ package jsonable
 
 //@ func ToJsonableIdentity
 //@   requires id != nil && id.Signatures != nil
-//@   ensures result != nil && fresh(result) && result.ID == id.ID && result.Type == id.Type && result.PublicKey == hexenc(bytes(id.PublicKey)) && result.Signatures != nil
+//@   ensures result != nil && fresh(result) && result.ID == id.ID && result.Type == id.Type && result.PublicKey == hexenc(bytes(id.PublicKey)) && result.Signatures != nil && result.Signatures.ID == hexenc(bytes(id.Signatures.ID)) && result.Signatures.PublicKey == hexenc(bytes(id.Signatures.PublicKey))
 
 //@ func ToJsonableLamportClock
 //@   requires validClock(l)
 //@   ensures result != nil && fresh(result) && result.Time == l.(*entry.LamportClock).Time && result.ID == hexenc(bytes(l.(*entry.LamportClock).ID))
 
+//@ define hasEncLinks(e iface.IPFSLogEntry) = has(e.(*entry.Entry).AdditionalData, "encrypted_links") && has(e.(*entry.Entry).AdditionalData, "encrypted_links_nonce")
 //@ func ToJsonableEntry
 //@   requires validEntry(e) && (e.(*entry.Entry).Identity == nil || e.(*entry.Entry).Identity.Signatures != nil)
 //@   ensures result != nil && fresh(result)
+//@   ensures [v2-entries-are-written-field-by-field] e.(*entry.Entry).V >= 2 ==> typeis(result, "*Entry") && result.(*Entry).V == e.(*entry.Entry).V && result.(*Entry).LogID == e.(*entry.Entry).LogID && result.(*Entry).Key == hexenc(bytes(e.(*entry.Entry).Key)) && result.(*Entry).Sig == hexenc(bytes(e.(*entry.Entry).Sig)) && result.(*Entry).Payload == str(e.(*entry.Entry).Payload) && result.(*Entry).Clock != nil && result.(*Entry).Clock.ID == hexenc(bytes(e.(*entry.Entry).Clock.ID)) && result.(*Entry).Clock.Time == e.(*entry.Entry).Clock.Time
+//@   ensures [v2-identity-is-written-field-by-field] e.(*entry.Entry).V >= 2 ==> (e.(*entry.Entry).Identity == nil ==> result.(*Entry).Identity == nil) && (e.(*entry.Entry).Identity != nil ==> result.(*Entry).Identity != nil && result.(*Entry).Identity.ID == e.(*entry.Entry).Identity.ID && result.(*Entry).Identity.Type == e.(*entry.Entry).Identity.Type && result.(*Entry).Identity.PublicKey == hexenc(bytes(e.(*entry.Entry).Identity.PublicKey)) && result.(*Entry).Identity.Signatures != nil && result.(*Entry).Identity.Signatures.ID == hexenc(bytes(e.(*entry.Entry).Identity.Signatures.ID)) && result.(*Entry).Identity.Signatures.PublicKey == hexenc(bytes(e.(*entry.Entry).Identity.Signatures.PublicKey)))
+//@   ensures [clear-links-are-written-only-without-encrypted-links] e.(*entry.Entry).V >= 2 && !hasEncLinks(e) ==> result.(*Entry).Next == e.(*entry.Entry).Next && result.(*Entry).Refs == e.(*entry.Entry).Refs && result.(*Entry).EncryptedLinks == "" && result.(*Entry).EncryptedLinksNonce == ""
+//@   ensures [encrypted-links-replace-the-clear-ones] e.(*entry.Entry).V >= 2 && hasEncLinks(e) ==> len(result.(*Entry).Next) == 0 && len(result.(*Entry).Refs) == 0 && result.(*Entry).EncryptedLinks == e.(*entry.Entry).AdditionalData["encrypted_links"] && result.(*Entry).EncryptedLinksNonce == e.(*entry.Entry).AdditionalData["encrypted_links_nonce"]
 //@   loop 0
 //@     invariant fresh(nextValues) && len(nextValues) == len(e.(*entry.Entry).Next)
